@@ -319,6 +319,9 @@ func (g *Gen) Step() {
 		g.harvest(a, r)
 	case "login", "otplogin":
 		args := Args{PID: a.PID, RM: g.R.Intn(3) == 0}
+		if !args.RM && g.R.Intn(6) == 0 {
+			args.RMVal = pick(g.R, []string{"false", "0", "1", "yes"})
+		}
 		if g.R.Intn(12) == 0 {
 			args.PID = "ghost@nowhere.com"
 		}
@@ -393,6 +396,9 @@ func (g *Gen) Step() {
 		r = m.HTTP(b, "logout", args, nil)
 	case "ostart":
 		args := Args{Prov: pick(g.R, []string{"stub", "other"}), RM: g.R.Intn(3) == 0}
+		if !args.RM && g.R.Intn(3) == 0 {
+			args.RMVal = pick(g.R, []string{"false", "0", "no", "TRUE"})
+		}
 		if g.R.Intn(3) == 0 {
 			args.Redir = "/after-oauth"
 		}
